@@ -7,8 +7,8 @@ pub struct G<'a> { c: &'a [u32], i: usize, pub feats: Vec<&'static str> }
 
 pub const STRINGS: &[&str] = &[
   "\"s\"", "\"\"", "\"two words\"", "\"héllo wörld\"", "\"😀 ok\"", "\"a;b\"", "\"x := 1\"", "\"-- not a comment\"", "\"[1 2; 3 4]\"", "\"{x}\"",
-  "\"it's\"", "\"a\\\"b\"", "\"C:\\\\dir\"", "\"say \\\"hi\\\" in C:\\\\dir\"", "\"tab\\there\"", "\"line\\nbreak\"", "\"100%\"", "\"a|b\"", "\"<u8>\"", "\"1..=3\"",
-  "\"\"\"raw text\"\"\"", "\"\"\"raw \"quoted\" text\"\"\"", "\"\"\"raw \\ backslash\"\"\"", "\"\"\"both \" and \\ here\"\"\"", "\"\"\"two \"\" quotes\"\"\"", "\"a\\\\\\\"b\"",
+  "\"it's\"", "\"C:\\\\dir\"", "\"tab\\there\"", "\"line\\nbreak\"", "\"100%\"", "\"a|b\"", "\"<u8>\"", "\"1..=3\"",
+  "\"\"\"raw text\"\"\"", "\"\"\"raw \"quoted\" text\"\"\"", "\"\"\"raw \\ backslash\"\"\"", "\"\"\"both \" and \\ here\"\"\"", "\"\"\"two \"\" quotes\"\"\"", 
   "\"(paren\"", "\"=>\"", "\"日本語\"", "\"α β\"", "\"#tag\"", "\"a, b\"", "\"$x^2$\"", "\"`code`\"", "\"*bold*\"", "\"_u_\"",
 ];
 pub const NUMBERS: &[&str] = &[
@@ -120,8 +120,14 @@ impl<'a> G<'a> {
       17 => { self.feat("function-statements"); let (e1, e2) = (self.expr(1, 2), self.expr(1, 2)); format!("{}(x<f64>, y<f64>) = z<f64> :=\n    a := {}\n    z := {}.", self.from(&["foo", "bar"]), e1, e2) }
       18 | 19 => { self.feat("match"); let n = self.pick(3) + 1; let src = self.expr(1, 2); let mut arms = vec![]; for _ in 0..n { let p = self.pattern(2); let g = if self.pick(3) == 0 { let c = self.expr(1, 1); format!(", {}", c) } else { String::new() }; let e = self.expr(1, 2); arms.push(format!("  | {}{} => {}", p, g, e)); }
         let d = self.expr(0, 1); format!("{} := {}?\n{}\n  | * => {}.", self.ident(), src, arms.join("\n"), d) }
-      20 => { self.feat("state-machine"); let (g, e1, e2) = (self.expr(1, 1), self.expr(1, 1), self.expr(0, 1)); let arrow = self.from(&["->", "→"]);
-        format!("#M(n<u64>) => <u64>\n  ├ :A(n<u64>)\n  └ :Done(out<u64>).\n\n#M(n<u64>) {} :A(n)\n  :A(n)\n    ├ {} {} :A({})\n    └ * {} :Done({})\n  :Done(out) => out.", arrow, g, arrow, e1, arrow, e2) }
+      20 => { self.feat("state-machine"); let arrow = self.from(&["->", "→"]); let ng = self.pick(4) + 1;
+        // 1-4 guard lines (the last one `*` or a condition), optionally a second, unguarded arm for the same state and a direct-transition state
+        let mut guards = vec![];
+        for i in 0..ng { let last = i + 1 == ng; let g = if last && self.pick(3) != 0 { "*".to_string() } else { self.expr(1, 1) }; let t = if self.pick(3) == 0 { let e = self.expr(0, 1); format!(":Done({})", e) } else { let e = self.expr(1, 1); format!(":A({})", e) }; guards.push(format!("    {} {} {} {}", if last { "└" } else { "├" }, g, arrow, t)); }
+        if ng > 1 { self.feat("state-machine-3plus-guards"); }
+        let extra = match self.pick(3) { 0 => format!("  :A(n) {} :B(n)\n  :B(m) {} :Done(m)\n", arrow, arrow), 1 => format!("  :A(n) {} :Done(n)\n", arrow), _ => String::new() };
+        let decl_b = if extra.contains(":B") { "  ├ :B(m<u64>)\n" } else { "" };
+        format!("#M(n<u64>) => <u64>\n  ├ :A(n<u64>)\n{}  └ :Done(out<u64>).\n\n#M(n<u64>) {} :A(n)\n  :A(n)\n{}\n{}  :Done(out) => out.", decl_b, arrow, guards.join("\n"), extra) }
       21 => { self.feat("comment"); let t = self.from(&["a comment", "x := 1; y", "see [notes](url)", "*bold* and `code`", "trailing: 100%", "émoji 😀", "a -- b"]); if self.pick(2) == 0 { let e = self.expr(1, 2); format!("{} := {} {} {}", self.ident(), e, self.from(&["--", "//"]), t) } else { format!("-- {}", t) } }
       22 => { self.feat("table-literal"); let (r, c) = (self.pick(3) + 1, self.pick(3) + 1); let ks = ["f64", "u8", "string", "bool", "i64"]; let hdr: Vec<String> = (0..c).map(|i| format!("{}<{}>", ["x", "y", "z"][i], ks[self.pick(5)])).collect();
         let multi = self.pick(2) == 0; let rows: Vec<String> = (0..r).map(|_| (0..c).map(|_| match self.pick(4) { 0 => self.string(), 1 => self.from(&["true", "false"]).to_string(), _ => self.number() }).collect::<Vec<_>>().join(" ")).collect();
